@@ -92,7 +92,10 @@ def project(case, res):
         obs['classify'].sort()
     else:
         for row in res.classify:
-            obs['rows'].append(dict(labels=list(row['labels']), OK=int(row['OK']), KO=int(row['KO']), total=int(row['total'])))
+            # label values are strings (ctx.assume): anything else in a row is shown as a string no label value is equal to
+            # (TLC does not compare a string with a number)
+            obs['rows'].append(dict(labels=[v if isinstance(v, str) else '<%s %r>' % (type(v).__name__, v) for v in row['labels']],
+                                    OK=int(row['OK']), KO=int(row['KO']), total=int(row['total'])))
         obs['oracles'] = [bool(o) for o in res.oracles()]
         obs['missing'] = int(res.nb_missing_labels())
     return obs
@@ -287,6 +290,66 @@ def lenient_error(case, exp, obs):
 
 
 # ---------------------------------------------------------------------------------------------
+# names that collide with something
+#
+# Stats.tla never looks inside a name (label names, label values, test names, task names are compared for equality only),
+# so a summary must not depend on how they are spelled.  The implementation and its helpers, however, use strings of
+# their own as dictionary keys / attribute names (the rows are dictionaries with the keys 'labels', 'OK', 'KO', 'total';
+# the label dictionaries are indexed together with '_result' and '_test_name'; an index / a browser has 'index', 'results',
+# 'data'; an environment section has 'status' and 'result'; ...).  Every case is therefore ALSO run with its names replaced,
+# injectively inside each name space, by such strings -- in rotation; the names TLC used are mapped the same way in its
+# output, the replay file holds the real names and is judged by TLC (StatsTrace) on them.
+
+COLLIDING = ['index', 'results', 'labels', 'name', 'status', 'result', '_result', '_test_name', 'data', 'OK', 'KO', 'total', '']
+COLLIDING_LNAMES = [n for n in COLLIDING if n not in ('_result', '_test_name')]     # reserved as label NAMES (ctx.assume)
+MODEL_NAMES = dict(L=['day', 'meal', 'code', 'nolabel'], V=['x', 'y', 'z'], R=['ra', 'rb'], T=['ta', 'tb', 'tc'])
+N_RENAMINGS = 2 * len(COLLIDING)
+COLL = '/colliding-names'
+
+
+def renaming(k):
+    """The k-th renaming: one injective map per name space (L label names, V label values, R test names, T task names).
+    Even k: the name spaces start at different places of the list; odd k: at the same place (a label called like its value,
+    like the test and like the task)."""
+    k %= N_RENAMINGS
+    start, same = k // 2, k % 2
+    rho = {}
+    for j, (space, names) in enumerate(sorted(MODEL_NAMES.items())):
+        pool = COLLIDING_LNAMES if space == 'L' else COLLIDING
+        off = start if same else start + 4 * j
+        rho[space] = {n: pool[(off + i) % len(pool)] for i, n in enumerate(names)}
+    return rho
+
+
+def rename_case(case, k):
+    rho = renaming(k)
+    ren = lambda space, n: rho[space].get(n, n)     # noqa: E731
+    tasks = []
+    for t in case['tasks']:
+        results = []
+        for r in t['results']:
+            new = dict(name=ren('R', r['name']), ok=r['ok'], labels={ren('L', l): ren('V', v) for l, v in r['labels'].items()})
+            if 'reserved' in r:
+                new['reserved'] = r['reserved']
+            results.append(new)
+        tasks.append(dict(name=ren('T', t['name']), status=t['status'], hasResult=t['hasResult'], results=results))
+    return dict(kind=case['kind'], tasks=tasks, sel=[ren('L', l) for l in case['sel']], names='renaming %d' % (k % N_RENAMINGS))
+
+
+def rename_expected(case, exp, k):
+    """TLC's output for `case` with the names mapped as rename_case(case, k) maps them."""
+    rho = renaming(k)
+    out = dict(exp)
+    if case['kind'] in ('tasks', 'tests'):
+        out['classify'] = sorted([cls, sorted(rho['T' if case['kind'] == 'tasks' or cls == 'MISSING' else 'R'].get(n, n) for n in names)]
+                                 for cls, names in exp['classify'])
+    else:
+        out['rows'] = sorted((dict(r, labels=[rho['V'].get(v, v) for v in r['labels']]) for r in exp['rows']), key=lambda r: r['labels'])
+        out['oracles'] = [r['OK'] == r['total'] for r in out['rows']]
+    return out
+
+
+# ---------------------------------------------------------------------------------------------
 # code -> spec
 
 def to_trace_case(cid, case, obs):
@@ -332,6 +395,7 @@ def trace_key(case, obs, clauses):
 
 
 TWIN = 10 ** 6
+ALT = 5 * 10 ** 5        # id offset of the colliding-names variant of a random input
 
 
 def corrupted_twins(batch):
@@ -485,9 +549,49 @@ def run_c18(ctx):
                "'_test_name' are reserved; label values are strings; selections are non-empty and repetition-free")
     ctx.assume('names inside a class and rows of the per-label summary are compared as bags / sets (their order is presentation); '
                'a requested label carried by no result is the documented TestStatsTestsByLabelsException (deviation = drift)')
+    ctx.assume('Stats.tla compares names (labels, label values, test and task names) for equality only: the output TLC computed for a state is, '
+               'with the names mapped injectively, the output for the state with the names mapped (the renamed variants of the dumped states are '
+               'judged that way; those of the random inputs, and every replay, by TLC itself on the real names)')
     wd = tlc.workdir('c18')
     n_eval = n_pipe = n_states = n_again = 0
     seen_raised = {}
+    drifted = {}
+
+    def drift_once(cls, text, limit=2):
+        drifted[cls] = drifted.get(cls, 0) + 1
+        if drifted[cls] <= limit:
+            ctx.drift(text)
+
+    def judge_one(case, exp, how, fn, suffix='', already=()):
+        """Evaluate the case the `how` way and compare both projections with what TLC computed; returns the keys of the finding
+        classes seen.  A class listed in `already` (the same state on ordinary names) is not reported a second time."""
+        nonlocal n_eval, n_pipe, n_again
+        obs = fn(case)
+        n_eval += 1
+        n_pipe += how == 'pipeline'
+        keys = []
+        pre = ('through the task pipeline: ' if how == 'pipeline' else '') + (
+            'with names that are keys / attribute names the implementation uses itself: ' if suffix else '')
+        if lenient_error(case, exp, obs):
+            drift_once('lenient' + suffix, '%s: label nobody carries did not raise the documented exception: %r' % (how, case))
+            return keys
+        diff = compare(case, exp, obs)
+        if diff:
+            keys.append(diff[0])
+            if diff[0] not in already:
+                ctx.violation(diff[0] + suffix, pre + diff[1], case, module=MODULE)
+        note_read_raised(ctx, case, obs, seen_raised)
+        if obs.get('again') is not None:
+            # the summary no longer projects to what it projected right after the evaluation: judged by the same TLC output
+            n_again += 1
+            diff2 = compare(case, exp, obs['again'])
+            if diff2 and (diff is None or diff2[0] != diff[0]):
+                keys.append(diff2[0] + AFTER)
+                if diff2[0] + AFTER not in already:
+                    ctx.violation(diff2[0] + suffix + AFTER, pre + 'after the summary has been read (bool, counts, table / plot '
+                                  'representations): ' + diff2[1], case, module=MODULE)
+        return keys
+
     for name, consts in configs(ctx):
         cfg = tlc.write_cfg(os.path.join(wd, name + '.cfg'), constants=consts, invariants=INVS, deadlock=False)
         dump = os.path.join(wd, name)
@@ -508,29 +612,10 @@ def run_c18(ctx):
             if crc % 7 == 0 and len(set(names)) == len(names):
                 runs.append(('pipeline', observe_pipeline))
             for how, fn in runs:
-                obs = fn(case)
-                n_eval += 1
-                n_pipe += how == 'pipeline'
-                if lenient_error(case, exp, obs):
-                    ctx.drift('%s: label nobody carries did not raise the documented exception: %r' % (how, case))
-                    continue
-                diff = compare(case, exp, obs)
-                if diff:
-                    key, text = diff
-                    if how == 'pipeline':
-                        text = 'through the task pipeline: ' + text
-                    ctx.violation(key, text, case, module=MODULE)
-                note_read_raised(ctx, case, obs, seen_raised)
-                if obs.get('again') is not None:
-                    # the summary no longer projects to what it projected right after the evaluation: judged by the same TLC output
-                    n_again += 1
-                    diff2 = compare(case, exp, obs['again'])
-                    if diff2 and (diff is None or diff2[0] != diff[0]):
-                        key, text = diff2
-                        text = 'after the summary has been read (bool, counts, table / plot representations): ' + text
-                        if how == 'pipeline':
-                            text = 'through the task pipeline: ' + text
-                        ctx.violation(key + AFTER, text, case, module=MODULE)
+                found = judge_one(case, exp, how, fn)
+                # the same state with names that collide with keys the implementation uses itself (rotation over the renamings)
+                k = crc % N_RENAMINGS
+                judge_one(rename_case(case, k), rename_expected(case, exp, k), how, fn, COLL, found)
             if _nontrivial(case, exp):
                 ctx.distinct((name, crc))
             if crc % 2999 == 1:
@@ -549,22 +634,25 @@ def run_c18(ctx):
     n_random = ctx.pick(3000, 40000)
     batch, byid = [], {}
     for cid in range(1, n_random + 1):
-        case = random_case(rng)
-        obs = observe(case)
-        byid[cid] = (case, obs)
-        batch.append(to_trace_case(cid, case, obs))
-        note_read_raised(ctx, case, obs, seen_raised)
-        if obs.get('again') is not None:
-            # second, different projection of the same summary: the same input with id -cid
-            n_again += 1
-            byid[-cid] = (case, obs['again'])
-            batch.append(to_trace_case(-cid, case, obs['again']))
+        plain = random_case(rng)
+        # one input in three also with names that collide with keys the implementation uses itself: id cid + ALT
+        for tid, case in [(cid, plain)] + ([(cid + ALT, rename_case(plain, cid // 3))] if cid % 3 == 0 else []):
+            obs = observe(case)
+            byid[tid] = (case, obs)
+            batch.append(to_trace_case(tid, case, obs))
+            note_read_raised(ctx, case, obs, seen_raised)
+            if obs.get('again') is not None:
+                # second, different projection of the same summary: the same input with id -tid
+                n_again += 1
+                byid[-tid] = (case, obs['again'])
+                batch.append(to_trace_case(-tid, case, obs['again']))
     rejected = 0
     # binding self-test: corrupted twins of recorded observations ride along in the first batch and must be rejected
     twins = corrupted_twins(batch)
     if len(twins) < 3:
         raise tlc.MachineryError('no recorded observation suitable for the corrupted-trace self-test')
     chunk = 10000
+    clauses = {}
     for k in range(0, len(batch), chunk):
         res, bad = validate_batch(batch[k:k + chunk] + (list(twins.values()) if k == 0 else []), wd, 'trace%d' % (k // chunk))
         ctx.tlc(res, 'StatsTrace/%d' % (k // chunk))
@@ -572,27 +660,30 @@ def run_c18(ctx):
             missed = set(twins) - {b[0] for b in bad}
             if missed:
                 raise tlc.MachineryError('StatsTrace accepts corrupted observations %s' % sorted(missed))
-        bad = [b for b in bad if b[0] < TWIN]
-        clauses = {}
         for cid, clause in bad:
-            clauses.setdefault(cid, set()).add(clause)
-        for cid in sorted(clauses):
-            case, obs = byid[cid]
-            key = trace_key(case, obs, clauses[cid])
-            if key is None:
-                ctx.drift('label nobody carries did not raise the documented exception: %r' % (case,))
-                continue
-            if cid < 0:
-                first = trace_key(case, byid[-cid][1], clauses.get(-cid, set())) if -cid in clauses else None
-                if first == key:
-                    continue                   # already reported for the projection made right after the evaluation
-                rejected += 1
-                ctx.violation(key + AFTER, 'StatsTrace rejects the observation made after the summary has been read (bool, counts, table / plot '
-                              'representations), clauses %s; observed %r' % (sorted(clauses[cid]), _short(obs)), case, module=MODULE)
-                continue
-            rejected += 1
-            ctx.violation(key, 'StatsTrace rejects the observation, clauses %s; observed %r' % (sorted(clauses[cid]), _short(obs)), case,
-                          module=MODULE)
+            if cid < TWIN:
+                clauses.setdefault(cid, set()).add(clause)
+
+    def tkey(tid):
+        return trace_key(byid[tid][0], byid[tid][1], clauses[tid]) if tid in clauses else None
+
+    for cid in sorted(clauses, key=lambda tid: (abs(tid) % ALT, abs(tid) >= ALT, tid < 0)):
+        case, obs = byid[cid]
+        key = tkey(cid)
+        if key is None:
+            drift_once('lenient-random', 'label nobody carries did not raise the documented exception: %r' % (case,))
+            continue
+        variant, again = abs(cid) >= ALT, cid < 0
+        if again and tkey(-cid) == key:
+            continue                   # already reported for the projection made right after the evaluation
+        if variant and key in (tkey(abs(cid) - ALT), tkey(ALT - abs(cid))):
+            continue                   # the same class on the same input with ordinary names
+        rejected += 1
+        ctx.violation(key + (COLL if variant else '') + (AFTER if again else ''),
+                      'StatsTrace rejects the observation%s%s, clauses %s; observed %r'
+                      % (' of the input with names that are keys / attribute names the implementation uses itself' if variant else '',
+                         ' made after the summary has been read (bool, counts, table / plot representations)' if again else '',
+                         sorted(clauses[cid]), _short(obs)), case, module=MODULE)
     ctx.count(evaluations=len(batch), traces=len(batch))
     for cid in [c for c in byid if c > 0][:2]:
         ctx.sample(dict(source='random', case=byid[cid][0], observed=_short(byid[cid][1])))
